@@ -26,6 +26,8 @@ ENCODED = [
     "tdgl.device.polygon:Polygon.is_valid",
     "tdgl.device.polygon:Polygon._join_via",
     "tdgl.device.device:Device.__init__",
+    "tdgl.solution.solution:Solution.__init__",
+    "tdgl.device.device:Device.__eq__",
 ]
 BOUNDS = {
     "quick": dict(terminals=[2, 3], breakpoints=1, defect="relative imbalance >= 1e-6"),
@@ -46,6 +48,10 @@ DEFECTS = ["well-formed", "bowtie-polygon", "unnamed-film", "unnamed-hole", "unn
 
 
 def patch_spec(case):
+    if case.kind == "seedhist":
+        from . import C11
+
+        return C11.patch_spec(case)
     if case.kind == "devdef":
         from . import C18
 
@@ -75,6 +81,8 @@ def cases(tier, seed):
     out.append(Case("epsilon>1:bar0", kind="epsilon", seed=seed))
     out.append(Case("vector-potential-shape:bar0", kind="shape", seed=seed))
     out.append(Case("seed-from-other-device:bar0", kind="seed", seed=seed))
+    for ch in ("london_lambda", "gamma", "coherence_length"):
+        out.append(Case(f"seed-from-device-changed-in-place:{ch}", kind="seedhist", change=ch, seed=seed))
     out.append(Case("terminal-touches-no-boundary", kind="terminal", seed=seed))
     out.append(Case("unbalanced-time-dependent:bar2", kind="timedep", dev="bar2", seed=seed))
     for d in DEFECTS:
@@ -260,6 +268,54 @@ def body_seed(H, case, fs):
         rejected = "seed_solution.device must be equal" in str(e)
     H.prove("a seed solution from a different device is rejected", rejected)
     no_output(H, fs, "foreign seed")
+
+
+def body_seedhist(H, case, fs):
+    """A seed solution belongs to the device *as it was* when the seed was computed: solve, change the device in
+    place, solve again with the first solution as seed - the second problem must be rejected, nothing written."""
+    import os
+    import shutil
+    import tempfile
+
+    sym = H.mode == "sym"
+    if sym:
+        fs.files.clear(); fs.dirs.clear(); fs.dirs.add("/work"); fs.open_handles.clear(); fs.log.clear()
+        work = "/work"
+    else:
+        work = tempfile.mkdtemp(prefix="c19-")
+    try:
+        dev = S.symbolic_device(H, "bar0", case.seed, symbolic_mesh=False)
+        opts = S.make_options(solve_time=0.5, dt_init=1.0, dt_max=1.0, adaptive=False, output_file=work + "/first.h5")
+        solver = S.make_solver(H, dev, opts, validate=False)
+
+        def update(state, running_state, dt, *, psi, mu, supercurrent, normal_current, induced_vector_potential, **kw):
+            running_state.append("dt", opts.dt_init)
+            return (opts.dt_init, psi * 0.5, mu + 1.0, supercurrent + 0.25, normal_current - 0.25, induced_vector_potential)
+
+        solver.update = update
+        first = solver.solve()
+        H.prove("the first problem is solved", first is not None)
+        if first is None:
+            return
+        factor = H.real("relative change", lo=1e-6, hi=1.0)
+        old = getattr(dev.layer, case.change)
+        setattr(dev.layer, case.change, old * (1 + factor))  # the user's device object, changed in place
+        n_before = len(fs.creations()) if sym else len(os.listdir(work))
+        opts2 = S.make_options(solve_time=0.5, dt_init=1.0, dt_max=1.0, adaptive=False, output_file=work + "/second.h5")
+        solver2 = S.make_solver(H, dev, opts2, validate=False)
+        solver2.seed_solution = first
+        solver2.update = update
+        try:
+            solver2.solve()
+            rejected = False
+        except ValueError as e:
+            rejected = "seed_solution.device must be equal" in str(e)
+        H.prove(f"a seed computed before the device's {case.change} was changed in place is rejected", rejected)
+        n_after = len(fs.creations()) if sym else len(os.listdir(work))
+        H.prove("the rejected second problem created nothing", n_after == n_before)
+    finally:
+        if not sym:
+            shutil.rmtree(work, ignore_errors=True)
 
 
 def body_terminal(H, case, fs):
